@@ -37,6 +37,8 @@ for d in sorted(glob.glob("/verif/seeded/*/")):
         "detected_by": det,
         "detected_by_own_property": (prop in det) if det is not None else None,
     }
+    if os.path.exists(d + "demo_note.txt"):
+        meta["demonstration"]["note"] = open(d + "demo_note.txt").read().strip()
     if conf.get("error"):
         meta["confirmation"]["error"] = conf["error"]
     json.dump(meta, open(d + "meta.json", "w"), indent=1)
